@@ -121,9 +121,12 @@ def _supplied_path(ctx, chk, kw, inst, r):
 def curve_owns_arrays(ctx, chk, rule="R15.10", fns=(ROCQ,)):
     """The returned curve's arrays are computed, not the caller's own buffers: a ROCCurve attribute that may alias a supplied
     fnr / fpr / thresholds array changes when the caller re-uses that array, and its rates then no longer belong to its thresholds."""
-    from ..alias import construction_aliases
+    from ..alias import construction_aliases, register_helpers
     n = 0
     import ast as _ast
+    # results of the package's own module-level helpers may hand an argument back (a support-point helper that returns the caller's threshold
+    # array unsorted and uncopied): one call level is followed
+    register_helpers([(f.name, f.node) for m in ctx.db.modules.values() for f in m.functions.values()])
     for q in fns:
         fi = ctx.db.function(q)
         sites = [(q, fi, call, slots) for call, slots in construction_aliases(fi.node, {"ROCCurve", "cls"})]
